@@ -37,6 +37,12 @@ def _reciprocal(val):
     return 1 / val
 
 
+_ARITHMETIC_UFUNCS = {
+    np.add: operator.add, np.subtract: operator.sub,
+    np.multiply: operator.mul, np.true_divide: operator.truediv,
+    np.negative: operator.neg}
+
+
 class Prior(HoloPyObject):
     """
     Base class for Bayesian priors in holopy.
@@ -108,6 +114,13 @@ class Prior(HoloPyObject):
 
     def __array_ufunc__(self, ufunc, method, *args, name=None, **kwargs):
         if method == "__call__" and len(kwargs) == 0:
+            if ufunc in _ARITHMETIC_UFUNCS and name is None and not any(
+                    isinstance(arg, np.ndarray) for arg in args):
+                # NumPy scalars dispatch here instead of to __rmul__ etc.;
+                # the operators know about adding 0 and multiplying by 0 or 1
+                args = [arg.item() if isinstance(arg, np.generic) else arg
+                        for arg in args]
+                return _ARITHMETIC_UFUNCS[ufunc](*args)
             return TransformedPrior(ufunc, args, name)
         else:
             raise TypeError('Could not apply numpy ufunc to Prior object. '
